@@ -1,5 +1,6 @@
 import CijModel.Wire
 import CijModel.Fill
+import CijModel.FillCall
 open Lean Cij Cij.Wire
 
 /-! Wire ops of C09 (and the `fill` op shared with C08).  Floats arrive as IEEE-754 bit patterns and are turned
@@ -47,24 +48,31 @@ def rowsOfJson (j : Json) : Except String Fill.Rows := do
   pure (rows.map fun r => ⟨r.take 21, r.getD 21 0, (r.getD 22 1).toNat⟩)
 
 /-- op `fill`: {columns:[str], values:[[bits]…] (one list per column), system: str|null, ignore_residuals,
-    ignore_rank: bool, drop_atol, residual_atol: bits, exists: bool (Path(system).exists(); ignored by the model as
+    ignore_rank: bool, drop_atol, residual_atol: bits (each of the four optional: absent = the signature's default,
+    `FillCall.defaultParams`), exists: bool (Path(system).exists(); ignored by the model as
     by the code), user_rows?: [[21 coeffs, rhs, den]…] (present iff `system` is a path to a regular file)} -/
 def fillOp (j : Json) : Except String Json := do
   let names ← listOf strOfJson (← field j "columns")
   let vals ← listOf (listOf ratOfJson) (← field j "values")
   let system : Option String := match fieldD j "system" Json.null with | .str s => some s | _ => none
-  let P : Fill.Params Rat := {
-    ignoreResiduals := ← boolOfJson (← field j "ignore_residuals"),
-    ignoreRank := ← boolOfJson (← field j "ignore_rank"),
-    dropAtol := ← ratOfJson (← field j "drop_atol"),
-    residualAtol := ← ratOfJson (← field j "residual_atol") }
+  -- an absent keyword takes the default of the signature as the MODEL has it (`FillCall.defaultParams`)
+  let optBool (k : String) : Except String (Option Bool) :=
+    match fieldD j k Json.null with | .null => pure none | v => (boolOfJson v).map some
+  let optRat (k : String) : Except String (Option Rat) :=
+    match fieldD j k Json.null with | .null => pure none | v => (ratOfJson v).map some
+  let kw : FillCall.Kwargs := {
+    system := some system,
+    ignoreResiduals := ← optBool "ignore_residuals",
+    ignoreRank := ← optBool "ignore_rank",
+    dropAtol := ← optRat "drop_atol",
+    residualAtol := ← optRat "residual_atol" }
   let ex ← boolOfJson (fieldD j "exists" (Json.bool false))
   let user : Option Fill.Rows ← match fieldD j "user_rows" Json.null with
     | .null => pure none
     | r => (rowsOfJson r).map some
   let env : Fill.Env := { pathExists := fun _ => ex, userFile := fun _ => user }
   let t : Fill.Table Rat := List.zip names vals
-  match Fill.fill env system P t with
+  match FillCall.call env kw t with
   | .error e => pure (Json.mkObj [("status", Json.str (errName e))])
   | .ok out =>
     pure (Json.mkObj [("status", Json.str "ok"), ("columns", jStrs (out.map (·.1))),
